@@ -11,6 +11,7 @@ import (
 	"strconv"
 	"strings"
 	"sync"
+	"syscall"
 	"time"
 
 	"github.com/nats-io/nats.go"
@@ -32,23 +33,94 @@ type instance struct {
 	runErr  error
 }
 
-var portMu sync.Mutex
+// Ports for the instances.  A port that was found free by listening on :0 and closing again can be handed out a
+// second time before the first instance has bound it - by this process (instances are started in parallel) or by
+// another check running at the same time; the second NATS server then fails to bind while its instance's clients
+// quietly connect to the first one, and two stores share one bus.  So ports come from blocks of 64 that a process
+// claims for itself (an flock on a file per block, held until the process ends; below the range the kernel uses for
+// outgoing connections) and within its blocks a process never hands out a port twice.
+var (
+	portMu    sync.Mutex
+	portNext  int
+	portEnd   int
+	portLocks []*os.File
+	portSeen  = map[int]bool{}
+)
+
+const (
+	portBase   = 10000
+	portBlock  = 64
+	portBlocks = 340 // up to 31760
+)
+
+var portStarts []int // first port of every block this process holds
+var portCycle int
+
+func claimPortBlock() bool {
+	if len(portStarts) >= 8 {
+		// enough for every instance that lives at one time: go round the blocks again (a port that is still
+		// bound is skipped by the listen test)
+		portNext = portStarts[portCycle%len(portStarts)]
+		portEnd = portNext + portBlock
+		portCycle++
+		return true
+	}
+	dir := filepath.Join(os.TempDir(), "verif-portlocks")
+	if err := os.MkdirAll(dir, 0o777); err != nil {
+		return false
+	}
+	start := (os.Getpid()*7919 + len(portLocks)*31) % portBlocks
+	for k := 0; k < portBlocks; k++ {
+		b := (start + k) % portBlocks
+		f, err := os.OpenFile(filepath.Join(dir, fmt.Sprintf("block-%d.lock", b)), os.O_CREATE|os.O_RDWR, 0o666)
+		if err != nil {
+			continue
+		}
+		if syscall.Flock(int(f.Fd()), syscall.LOCK_EX|syscall.LOCK_NB) != nil {
+			f.Close()
+			continue
+		}
+		portLocks = append(portLocks, f)
+		portNext = portBase + b*portBlock
+		portEnd = portNext + portBlock
+		portStarts = append(portStarts, portNext)
+		return true
+	}
+	return false
+}
 
 func freePorts(n int) ([]int, error) {
 	portMu.Lock()
 	defer portMu.Unlock()
-	var ls []net.Listener
 	var ports []int
-	for i := 0; i < n; i++ {
+	for tries := 0; len(ports) < n && tries < 20000; tries++ {
+		if portNext >= portEnd && !claimPortBlock() {
+			break
+		}
+		p := portNext
+		portNext++
+		l, err := net.Listen("tcp", fmt.Sprintf(":%d", p))
+		if err != nil {
+			continue // something else listens there
+		}
+		l.Close()
+		ports = append(ports, p)
+	}
+	// no lock directory, or every block taken: ports the kernel finds free, never the same one twice in this process
+	for tries := 0; len(ports) < n && tries < 1000; tries++ {
 		l, err := net.Listen("tcp", "127.0.0.1:0")
 		if err != nil {
 			return nil, err
 		}
-		ls = append(ls, l)
-		ports = append(ports, l.Addr().(*net.TCPAddr).Port)
-	}
-	for _, l := range ls {
+		p := l.Addr().(*net.TCPAddr).Port
 		l.Close()
+		if !portSeen[p] {
+			portSeen[p] = true
+			ports = append(ports, p)
+		}
+	}
+	if len(ports) < n {
+		return nil, fmt.Errorf("no free ports")
 	}
 	return ports, nil
 }
